@@ -187,7 +187,10 @@ def analyse(E, site):
 
     def fresh_state():
         st = State()
-        ctx = T.make_context(E, st, scope_in_stream=False)
+        # a check rule runs after Registry.run_rules appended the matching primary to the
+        # history; IsExpressionStatement only runs inside a function body (finite checks, C07)
+        nonempty_hist = site["file"].startswith("norminette/rules/check_") or cls.name == "IsExpressionStatement"
+        ctx = T.make_context(E, st, scope_in_stream=False, minhist=1 if nonempty_hist else 0)
         fr = {}
         params = [a.arg for a in fn.args.args]
         is_ctx_method = site["file"] == "norminette/context.py"
@@ -353,8 +356,10 @@ def analyse(E, site):
         for ob in E.obligations[nob0:]:
             if discharge(ob, 5000) != "discharged":
                 results = [r for r in results if not r[0].endswith(".progress")]
-                results.append((name + ".progress", "undecided",
-                                {"reason": "a nested loop may move the cursor back (auto-invariant not proved)"}))
+                why = ("a call-site precondition is not provable in the isolated loop state: " + ob.name
+                       if ob.kind == "callsite-pre" else
+                       "a nested loop may move the cursor back (auto-invariant not proved)")
+                results.append((name + ".progress", "undecided", {"reason": why}))
                 break
     except (Unsupported, SpecError) as e:
         results.append((name, "undecided", {"unsupported-construct": str(e)[:200]}))
